@@ -734,6 +734,28 @@ impl FieldsExt for syn::Fields {
     }
 }
 
+/// Verification hook, compiled only with the `derive_more_verif` feature: parses `"literal", args...`
+/// as a [`FmtAttribute`] and reports, for each argument, its alias, whether its expression is a
+/// plain identifier, and its tokens.
+#[cfg(feature = "derive_more_verif")]
+#[allow(dead_code)]
+pub(crate) fn verif_parse_fmt_attribute(
+    tokens: TokenStream,
+) -> syn::Result<Vec<(Option<String>, bool, String)>> {
+    let attr: FmtAttribute = syn::parse2(tokens)?;
+    Ok(attr
+        .args
+        .iter()
+        .map(|a| {
+            (
+                a.alias.as_ref().map(|(ident, _)| ident.to_string()),
+                a.expr.ident().is_some(),
+                a.expr.to_token_stream().to_string(),
+            )
+        })
+        .collect())
+}
+
 #[cfg(test)]
 mod fmt_attribute_spec {
     use itertools::Itertools as _;
